@@ -39,6 +39,7 @@ Permissive(wp, ev) ==
   LET w1 == AllPayable(Unpaused(Unfrozen(wp))) IN
   IF ev.fn \in RoleGated /\ NArgs(ev) >= 1 /\ ev.caller \in Accts(wp) THEN WithAllRoles(w1, ev.caller, Arg(ev,1).h) ELSE w1
 RefPerm(wp, ev) == Ref(Permissive(wp, ev), IF ev.a = "exec" /\ ev.gascls = "" THEN [ev EXCEPT !.gas = 900000000] ELSE ev)
+RefAmple(wp, ev) == Ref(wp, IF ev.a = "exec" /\ ev.gascls = "" THEN [ev EXCEPT !.gas = 900000000] ELSE ev)
 RefOk(wp, ev) == LET r2 == Ref(wp, ev) IN ~r2.unk /\ r2.ok
 
 \* all step predicates by name
@@ -68,7 +69,7 @@ StepPred(name, wp, ev, w2, hp, r) ==
     [] name = "P08_Conf" -> P08_Conf(wp, ev, w2, hp, r)
     [] name = "P08_Create" -> P08_Create(wp, ev, w2, hp, r)
     [] name = "P08_OnlyUriAttr" -> P08_OnlyUriAttr(wp, ev, w2, hp, r)
-    [] name = "P08_UriAttrExact" -> P08_UriAttrExact(wp, ev, w2, hp, r)
+    [] name = "P08_UriAttrExact" -> P08_UriAttrExact(wp, ev, w2, hp, r, RefAmple(wp, ev))
     [] name = "P08_WrongHash" -> P08_WrongHash(wp, ev, w2, hp, r)
     [] name = "P09_Admissible" -> P09_Admissible(wp, ev, w2, hp, r)
     [] name = "P09_Rejected" -> P09_Rejected(wp, ev, w2, hp, r)
